@@ -81,8 +81,10 @@ def run_case(ctx, mr, case):
     # read-only container: the write is refused and nothing changes
     c, bio = sc.open_container(img, geom['kind'], writable=False)
     r = sc.lv4_reader(c, 0)
+    at = rng.randrange(len(payloads[0]))
+    r.seek(at)
     try:
-        r.write(b'x')
+        r.write(pyenv.rbytes(rng, rng.choice([1, 1, 16, 200])))
         ctx.diff('oracle', 'readonly-write-accepted', case, 'IVFCReadOnlyError', 'accepted', 'write on a read-only container was accepted')
     except IVFCReadOnlyError:
         ctx.stat('readonly_refused')
@@ -90,6 +92,10 @@ def run_case(ctx, mr, case):
         ctx.diff('oracle', 'readonly-error', case, 'IVFCReadOnlyError', pyenv.errname(ex), 'wrong error for a write on a read-only container')
     if bio.getvalue() != img:
         ctx.diff('oracle', 'readonly-changed', case, 'unchanged', 'changed', 'a refused write changed the file')
+    # ... "changes nothing" includes the view itself: it still stands where it stood, and reads on from there
+    pos, nxt = r.tell(), r.read(24)
+    if pos != at or nxt != payloads[0][at:at + 24]:
+        ctx.diff('oracle', 'readonly-moved', dict(case, at=at), at, pos, f'a write refused at {at:#x} left the view at {pos:#x} / the next read is not the data there')
     c.close()
     # writes
     cm = mk() if mk else None
@@ -197,6 +203,8 @@ def run_case(ctx, mr, case):
         c3.close()
         ctx.stat('heal_histories')
     sc.heal_neighbour_case(ctx, case, rng, img, info, payloads, geom)
+    if rng.random() < 0.5:
+        sc.positioned_case(ctx, case, random.Random(geom['seed'] ^ 0x51A7), img, info, payloads, geom, write=True)
     # CMAC
     if cm and wrote:
         hdr = out[0x100:0x200]
